@@ -101,7 +101,8 @@ type e2ePlan struct {
 	Idx       int
 	DynOff    bool
 	BeastOff  bool
-	KeyUpdate int // TLS 1.3, zcrypto writers: 0 none, 1 KeyUpdate(update_not_requested) between writes, 2 also update_requested (the peer's reader answers)
+	Family    string // "" | many (>= 600 one-record writes per direction, clean) | pair (same, plus a fault that involves two records a fixed distance apart)
+	KeyUpdate int    // TLS 1.3, zcrypto writers: 0 none, 1 KeyUpdate(update_not_requested) between writes, 2 also update_requested (the peer's reader answers)
 	Capacity  int
 	WritesAB  []int
 	WritesBA  []int
@@ -261,6 +262,41 @@ func genFault(rng *rand.Rand, cl cell, dir string, maxRel int) faultSpec {
 }
 
 // genPlan derives plan idx of a (pair, cell) from the run seed only, so every shard and a replay see the same plan.
+// pairDeltas are the record distances of the pair faults: records 255 (or a multiple) apart would share a
+// sequence number if the carry into the second byte were lost; 256 and the small ones are the neighbours.
+var pairDeltas = []int{255, 256, 510, 1, 2}
+var pairKinds = []string{"pair-replace", "pair-dup", "pair-swap"}
+
+// genFamilyPlan builds the plans with several hundred records per direction under one key.
+// idx >= 1000: clean "many" plan; idx >= 2000: "pair" plan number idx-2000 (ord selects distance and kind).
+func genFamilyPlan(seed int64, pair string, cl cell, idx, ord int) *e2ePlan {
+	rng := rngFor(seed, fmt.Sprintf("C25/%s/%s/%d", pair, cl, idx))
+	p := &e2ePlan{Pair: pair, Cell: cl.String(), Idx: idx, Family: "many", BeastOff: true}
+	p.SegAB = segSpec{[]string{"all", "random", "hdrbody"}[rng.IntN(3)], rng.Uint64()}
+	p.SegBA = segSpec{[]string{"all", "random", "hdrbody"}[rng.IntN(3)], rng.Uint64()}
+	p.ReadSeed = rng.Uint64()
+	n := 620 + rng.IntN(60)
+	size := 8 + rng.IntN(24)
+	for i := 0; i < n; i++ {
+		// one record per write, all of one size, so that a record can stand in for another byte for byte
+		p.WritesAB = append(p.WritesAB, size)
+		p.WritesBA = append(p.WritesBA, size)
+	}
+	if idx >= 2000 {
+		p.Family = "pair"
+		dir := []string{"AB", "BA"}[ord%2]
+		delta := pairDeltas[(ord/2)%len(pairDeltas)]
+		kind := pairKinds[(ord/10)%len(pairKinds)]
+		j := 1 + rng.IntN(60)
+		p.Faults = []faultSpec{{Dir: dir, Kind: kind, Src: j, Rel: j + delta, Class: fmt.Sprintf("distance-%d", delta)}}
+		if kind == "pair-swap" {
+			// the stream first deviates where the later record shows up in place of the earlier one
+			p.Faults[0].Rel, p.Faults[0].Src = j, j+delta
+		}
+	}
+	return p
+}
+
 func genPlan(seed int64, pair string, cl cell, idx int, clean bool) *e2ePlan {
 	rng := rngFor(seed, fmt.Sprintf("C25/%s/%s/%d", pair, cl, idx))
 	p := &e2ePlan{Pair: pair, Cell: cl.String(), Idx: idx}
@@ -394,6 +430,73 @@ func newDirTrack() *dirTrack {
 	return t
 }
 
+// pairFilter sits behind a dirTrack's RecordFilter (which, without actions, hands over whole records) and applies one
+// fault that involves two records: lo < hi are absolute record indexes.
+//
+//	pair-replace: record hi is replaced by a copy of record lo
+//	pair-dup:     a copy of record lo is sent in front of record hi
+//	pair-swap:    records lo..hi are held back; hi is sent in lo's place and lo in hi's place
+type pairFilter struct {
+	inner  *netx.RecordFilter
+	t      *dirTrack
+	kind   string
+	lo, hi int
+	n      int
+	saved  []byte
+	held   [][]byte
+}
+
+func (f *pairFilter) each(rec []byte) [][]byte {
+	i := f.n
+	f.n++
+	mark := func(at int) {
+		f.t.mu.Lock()
+		f.t.effect[at] = faultEffect{changes: true}
+		f.t.mu.Unlock()
+	}
+	switch f.kind {
+	case "pair-replace", "pair-dup":
+		if i == f.lo {
+			f.saved = append([]byte(nil), rec...)
+		}
+		if i == f.hi && f.saved != nil {
+			mark(f.hi)
+			if f.kind == "pair-replace" {
+				return [][]byte{f.saved}
+			}
+			return [][]byte{f.saved, rec}
+		}
+	case "pair-swap":
+		if i >= f.lo && i < f.hi {
+			f.held = append(f.held, append([]byte(nil), rec...))
+			return nil
+		}
+		if i == f.hi && len(f.held) > 0 {
+			mark(f.lo)
+			out := [][]byte{rec}
+			out = append(out, f.held[1:]...)
+			out = append(out, f.held[0])
+			f.held = nil
+			return out
+		}
+	}
+	return [][]byte{rec}
+}
+
+func (f *pairFilter) Write(p []byte) [][]byte {
+	var out [][]byte
+	for _, rec := range f.inner.Write(p) {
+		out = append(out, f.each(rec)...)
+	}
+	return out
+}
+
+func (f *pairFilter) Flush() [][]byte {
+	out := append([][]byte(nil), f.held...) // fewer records than planned: nothing was reordered
+	f.held = nil
+	return append(out, f.inner.Flush()...)
+}
+
 func (t *dirTrack) setWrite(i int) { t.mu.Lock(); t.curWrite = i; t.mu.Unlock() }
 func (t *dirTrack) count() int     { t.mu.Lock(); defer t.mu.Unlock(); return len(t.recs) }
 
@@ -456,9 +559,10 @@ func runE2E(c *core.Ctx, cl cell, p *e2ePlan) {
 	c.Eval(1)
 	c.Count("e2e_sessions_"+p.Pair, 1)
 	tAB, tBA := newDirTrack(), newDirTrack()
+	pfAB, pfBA := &pairFilter{inner: tAB.filter, t: tAB, lo: -1, hi: -1}, &pairFilter{inner: tBA.filter, t: tBA, lo: -1, hi: -1}
 	opt := tlspair.Options{
-		AB: netx.Options{Filter: tAB.filter, Segment: p.SegAB.fn(), Capacity: p.Capacity},
-		BA: netx.Options{Filter: tBA.filter, Segment: p.SegBA.fn(), Capacity: p.Capacity},
+		AB: netx.Options{Filter: pfAB, Segment: p.SegAB.fn(), Capacity: p.Capacity},
+		BA: netx.Options{Filter: pfBA, Segment: p.SegBA.fn(), Capacity: p.Capacity},
 	}
 	seed := hash64(id)
 	var r *tlspair.Result
@@ -518,6 +622,17 @@ func runE2E(c *core.Ctx, cl cell, p *e2ePlan) {
 		t, base := tAB, baseAB
 		if f.Dir == "BA" {
 			t, base = tBA, baseBA
+		}
+		if strings.HasPrefix(f.Kind, "pair-") {
+			pf := pfAB
+			if f.Dir == "BA" {
+				pf = pfBA
+			}
+			pf.kind, pf.lo, pf.hi = f.Kind, base+f.Rel, base+f.Src
+			if pf.lo > pf.hi {
+				pf.lo, pf.hi = pf.hi, pf.lo
+			}
+			continue
 		}
 		a := netx.RecordAction{Index: base + f.Rel, Kind: f.Kind, Off: f.Off, Mask: f.Mask, Data: f.Data}
 		if f.Kind == "replay" {
@@ -831,6 +946,16 @@ func runC25(c *core.Ctx) {
 				cases = append(cases, e2eCase{pair, cl, i, i < xClean})
 			}
 		}
+		// more than 600 records per direction under one key: clean (all pairs; a peer with a correct counter
+		// notices a lost carry at record 256) and with two-record faults at distances 255, 256, 510, 1, 2
+		for _, pair := range []string{"ZZ", "ZG", "GZ"} {
+			for i := 0; i < c.Pick(1, 4); i++ {
+				cases = append(cases, e2eCase{pair, cl, 1000 + i, true})
+			}
+		}
+		for i := 0; i < c.Pick(3, 30); i++ {
+			cases = append(cases, e2eCase{"ZZ", cl, 2000 + i, false})
+		}
 	}
 	c.Count("e2e_cells", len(cells))
 	for i, k := range cases {
@@ -838,6 +963,9 @@ func runC25(c *core.Ctx) {
 			continue
 		}
 		p := genPlan(c.Seed, k.pair, k.cl, k.idx, k.clean)
+		if k.idx >= 1000 {
+			p = genFamilyPlan(c.Seed, k.pair, k.cl, k.idx, i)
+		}
 		if c.OnlyCase != "" && c.OnlyCase != p.id() {
 			continue
 		}
